@@ -5,87 +5,87 @@ ROOT = os.path.dirname(os.path.dirname(os.path.abspath(__file__)))
 
 CHECKS = {
  "C01": dict(
-   text="Generated-input search over expression programs with an independent oracle: 400k random programs per quick run (6M thorough; depth <= 6, 1-25 nodes, 1-5 variables) over + - * / neg abs exp log norm_cdf inv_norm_cdf and real powers, every binary node in one of the 4 ownership forms with bare floats on either side, leaves tagged as own variable / padded permuted list / shared list; an interpreter dispatches each node to the exact trait impl and per-variant hit counters have floors, so each of the ~60 macro-generated variants is exercised. Value is compared with plain f64 evaluation, the gradient with an independent dense forward-mode evaluator under a first-order running error bound (plus the metamorphic twin with constants promoted to duals). It cannot prove exactness for all programs; it shows no variant disagrees on what was generated.",
+   text="Generated-input search over expression programs with an independent oracle: 1.2M random programs per quick run (40M thorough, plus ~1M coverage-guided executions; depth <= 6, 1-25 nodes, 1-5 variables) over + - * / neg abs exp log norm_cdf inv_norm_cdf and real powers, every binary node in one of the 4 ownership forms with bare floats on either side, leaves tagged as own variable / padded permuted list / shared list; an interpreter dispatches each node to the exact trait impl and per-variant hit counters have floors, so each of the ~60 macro-generated variants is exercised. Value is compared with plain f64 evaluation, the gradient with an independent dense forward-mode evaluator under a first-order running error bound (plus the metamorphic twin with constants promoted to duals). It cannot prove exactness for all programs; it shows no variant disagrees on what was generated.",
    note="Points are kept differentiable by a deterministic sanitiser; tolerance 1e-10 x running error bound, with an explicit allowance (5e-11 absolute, propagated) for the measured branch-point jumps of the float normal cdf implementation; reference cross-checked by finite differences on ~2% of cases.",
    technique="property-based testing (proptest, shrinking) with a differential oracle (independent dense forward-mode AD) and a metamorphic twin",
    design="5/C01"),
  "C02": dict(
-   text="The C01 programs evaluated on second-order numbers: 200k per quick run (4M thorough) with a requested variable list (any order / subset / superset). gradient2 must be symmetric and equal to the reference Hessian (true second derivatives, 1e-9 x running error bound); value and gradient must agree with the reference and with the same program run on first-order numbers; From<Dual2>/From<&Dual2> for Dual must keep value, names and first derivatives bit-for-bit. Floors require cross terms after >= 3 composed operations in >= 20% of cases and every Dual2 operator variant to be hit.",
+   text="The C01 programs evaluated on second-order numbers: 800k per quick run (25M thorough) with a requested variable list (any order / subset / superset). gradient2 must be symmetric and equal to the reference Hessian (true second derivatives, 1e-9 x running error bound); value and gradient must agree with the reference and with the same program run on first-order numbers; From<Dual2>/From<&Dual2> for Dual must keep value, names and first derivatives bit-for-bit. Floors require cross terms after >= 3 composed operations in >= 20% of cases and every Dual2 operator variant to be hit.",
    note="As C01; second-order error terms are covered by loose magnitude floors (eps^2 scale).",
    technique="property-based testing (proptest, shrinking) with a differential oracle (independent dense second-order forward-mode AD)",
    design="5/C02"),
  "C03": dict(
-   text="Exhaustive enumeration of every pair of ordered subsets of a 4-name universe (65 x 65 layouts) x {own, shared storage} x {+,-,*,/,%,==} x {Dual, Dual2} with name-dependent dyadic coefficients, plus 400k random layout pairs over 8 names per quick run (4M thorough) with zero padding and pairs built equal-by-name in different layouts or differing in exactly one coefficient. Oracle: independent by-name formulas per operator, invariance against the same operands on one shared sorted list, result variables == set union (each once) with matching array shapes, == <=> equal by name with missing == 0 (both operand orders). The small-universe enumeration is complete for layout relationships; values are sampled.",
+   text="Exhaustive enumeration of every pair of ordered subsets of a 4-name universe (65 x 65 layouts) x {own, shared storage} x {+,-,*,/,%,==} x {Dual, Dual2} with name-dependent dyadic coefficients, plus 1M random layout pairs over 8 names per quick run (20M thorough) with zero padding and pairs built equal-by-name in different layouts or differing in exactly one coefficient. Oracle: independent by-name formulas per operator, invariance against the same operands on one shared sorted list, result variables == set union (each once) with matching array shapes, == <=> equal by name with missing == 0 (both operand orders). The small-universe enumeration is complete for layout relationships; values are sampled.",
    note="Results are read from the result's own arrays, not through gradient1/2 (C17). Name order on results is not asserted.",
    technique="exhaustive layout enumeration + property-based testing (proptest) against independent by-name formulas and a layout-invariance metamorphic relation",
    design="5/C03"),
  "C09": dict(
-   text="Generated-input search: 60k random quote sets per quick run (1.5M thorough): labelled trees on 2-12 currencies (random recursive trees, forced chains and stars, random relabelling, orientation, quote order, base, optional settlement date, rates over 8 orders of magnitude), ~40% deliberately damaged (under/over-specified, cycle plus island with the right count, duplicate and reverse-duplicate pairs, mixed settlement, base outside). A union-find decides validity; for valid sets all n*n crosses are checked against BFS path products (1e-12), quoted pairs bit-exact, diagonal exactly 1, inverse law, and a reshuffled / re-based twin market; invalid sets must be rejected.",
+   text="Generated-input search: 150k random quote sets per quick run (5M thorough): labelled trees on 2-12 currencies (random recursive trees, forced chains and stars, random relabelling, orientation, quote order, base, optional settlement date, rates over 8 orders of magnitude), ~40% deliberately damaged (under/over-specified, cycle plus island with the right count, duplicate and reverse-duplicate pairs, mixed settlement, base outside). A union-find decides validity; for valid sets all n*n crosses are checked against BFS path products (1e-12), quoted pairs bit-exact, diagonal exactly 1, inverse law, and a reshuffled / re-based twin market; invalid sets must be rejected.",
    note="Rates are plain floats here (dual quotes are C10's subject).",
    technique="property-based testing (proptest, shrinking) against a graph reference model (union-find + BFS path product) and a metamorphic twin",
    design="5/C09"),
  "C10": dict(
-   text="Model-based (stateful) testing: 15k random histories per quick run (500k thorough) of 0-12 operations (update, set order 0/1/2, three kinds of refused update) on valid markets with float and dual quotes, interpreted against a model holding the latest quotes; after construction and after every step all n*n rates, their first-order sensitivities by variable NAME (fx_xxxyyy / own variables / zero elsewhere) and, at order 2, their Hessians are compared with analytic path formulas, updates with a directly built market, refused updates with a clone (== and bit-identical rates), order switches for value preservation. The history shrinks as one value.",
+   text="Model-based (stateful) testing: 25k random histories per quick run (1.2M thorough) of 0-12 operations (update, set order 0/1/2, three kinds of refused update) on valid markets with float and dual quotes, interpreted against a model holding the latest quotes; after construction and after every step all n*n rates, their first-order sensitivities by variable NAME (fx_xxxyyy / own variables / zero elsewhere) and, at order 2, their Hessians are compared with analytic path formulas, updates with a directly built market, refused updates with a clone (== and bit-identical rates), order switches for value preservation. The history shrinks as one value.",
    note="Order after an update is not asserted; second-order numbers as input quotes are not generated.",
    technique="stateful model-based property testing (operation sequences as vec(op) + interpreter, proptest shrinking) with analytic sensitivity oracle",
    design="5/C10"),
  "C17": dict(
-   text="200k random (stored number, requested name list) cases per quick run (4M thorough): layouts of 0-5 of 8 names, symmetric and non-symmetric second-order storage, requests equal to the stored list (fast path), reversed, subsets, supersets with absent names at any position, free lists, empty. gradient1/gradient2 must be exactly the stored coefficient (x2) or 0 in the requested order; gradient1_manifold entries must have value = first derivative, own gradient = Hessian row (zero for absent names), no second-order part; the product rule on manifolds must reproduce the Hessian of a product.",
+   text="1M random (stored number, requested name list) cases per quick run (25M thorough): layouts of 0-5 of 8 names, symmetric and non-symmetric second-order storage, requests equal to the stored list (fast path), reversed, subsets, supersets with absent names at any position, free lists, empty. gradient1/gradient2 must be exactly the stored coefficient (x2) or 0 in the requested order; gradient1_manifold entries must have value = first derivative, own gradient = Hessian row (zero for absent names), no second-order part; the product rule on manifolds must reproduce the Hessian of a product.",
    note="Requested names are distinct, as the property states.",
    technique="property-based testing (proptest, shrinking) against an exact by-name lookup model and an algebraic identity",
    design="5/C17"),
  "C18": dict(
-   text="60k random tuples per quick run (1.2M thorough), and for every tuple the complete tables: 3 source kinds x 3 target orders through set_order, set_order_clone and every From impl against the conversion table (bit-exact), and {+,-,*,/,%} x all 9 kind pairings (ref and owned forms) plus float-left/right, ==, partial_cmp, neg, abs, exp, log, norm_cdf, inv_norm_cdf, pow, signum, abs_sub, sum, zero, one on the container against the same operation written on the contained types (bit-exact); first-order with second-order pairings must not return a value. Floors require every cell of the table.",
+   text="300k random tuples per quick run (8M thorough), and for every tuple the complete tables: 3 source kinds x 3 target orders through set_order, set_order_clone and every From impl against the conversion table (bit-exact), and {+,-,*,/,%} x all 9 kind pairings (ref and owned forms) plus float-left/right, ==, partial_cmp, neg, abs, exp, log, norm_cdf, inv_norm_cdf, pow, signum, abs_sub, sum, zero, one on the container against the same operation written on the contained types (bit-exact); first-order with second-order pairings must not return a value. Floors require every cell of the table.",
    note="The contained types' arithmetic is the reference (verified by C01-C03); any panic counts as refusal.",
    technique="property-based testing (proptest) with complete operator/kind tables per case; differential against the contained types",
    design="5/C18"),
  "C19": dict(
-   text="150k random cases per quick run (3M thorough) over both kinds: comparisons between numbers and with floats on either side against the float comparison of the values, unchanged under replacement of derivative parts; abs; remainder in all operand forms against a - b*trunc(a/b) by name and the float remainder; sums against a left fold from zero; additive/multiplicative identities by name; is_zero. Sign quadrants of (a, b) have floors.",
+   text="500k random cases per quick run (12M thorough) over both kinds: comparisons between numbers and with floats on either side against the float comparison of the values, unchanged under replacement of derivative parts; abs; remainder in all operand forms against a - b*trunc(a/b) by name and the float remainder; sums against a left fold from zero; additive/multiplicative identities by name; is_zero. Sign quadrants of (a, b) have floors.",
    note="abs at 0 and zero divisors are excluded (documented as undefined).",
    technique="property-based testing (proptest, shrinking) with metamorphic (derivative-replacement) and algebraic-law oracles",
    design="5/C19"),
  "C11": dict(
-   text="600k random (rule, node set, query dates) cases per quick run (10M thorough): 2-12 nodes with spacings from 1 second to ~6 years, shuffled or sorted supply, queries before / after / exactly on / 1 s beside / between nodes; each curve is built through the generic constructor (shuffled and sorted) and through the Python-facing constructor (hook), all three must agree bit-for-bit and compare equal; the interval index must equal the linear-scan model and the value the closed form of the rule (1e-12 x conditioning, flat rules exact); node dates return node values; betweenness for linear / log-linear; index_left is additionally driven directly on float lists through the hook.",
+   text="1M random (rule, node set, query dates) cases per quick run (40M thorough): 2-12 nodes with spacings from 1 second to ~6 years, shuffled or sorted supply, queries before / after / exactly on / 1 s beside / between nodes; each curve is built through the generic constructor (shuffled and sorted) and through the Python-facing constructor (hook), all three must agree bit-for-bit and compare equal; the interval index must equal the linear-scan model and the value the closed form of the rule (1e-12 x conditioning, flat rules exact); node dates return node values; betweenness for linear / log-linear; index_left is additionally driven directly on float lists through the hook.",
    note="Tolerance scales with a conditioning factor of the rule at the query point (large only for absurd extrapolation or a seconds-long first interval under the zero-rate rule).",
    technique="property-based testing (proptest, shrinking) against closed-form reference interpolation and a three-way constructor differential",
    design="5/C11"),
  "C12": dict(
-   text="Model-based testing of order histories: 60k random (curve, constructor, initial order, 0-6 switches over {0,1,2}, queries) cases per quick run (1.5M thorough) with float nodes and nodes given as first / second-order numbers with custom variable names; a model tracks the tagging (none / id+i in date order / custom) through every transition; after construction and every switch each look-up must keep its value, be of the curve's order, and have gradient and Hessian BY NAME equal to the closed-form partials of the interpolation formula combined by the chain rule (zero outside the interval); ad() and index_value (value, order, gradient, zero before the first node, error without base) are checked too. All 9 transitions have floors.",
+   text="Model-based testing of order histories: 300k random (curve, constructor, initial order, 0-6 switches over {0,1,2}, queries) cases per quick run (6M thorough) with float nodes and nodes given as first / second-order numbers with custom variable names; a model tracks the tagging (none / id+i in date order / custom) through every transition; after construction and every switch each look-up must keep its value, be of the curve's order, and have gradient and Hessian BY NAME equal to the closed-form partials of the interpolation formula combined by the chain rule (zero outside the interval); ad() and index_value (value, order, gradient, zero before the first node, error without base) are checked too. All 9 transitions have floors.",
    note="Derivative checks are skipped (counted) where the value is beyond 1e+-30 (absurd extrapolation).",
    technique="stateful model-based property testing (switch sequences, proptest shrinking) with closed-form derivative oracle",
    design="5/C12"),
  "C13": dict(
-   text="40k random systems per quick run (1M thorough): square 1-8 and tall up to 14x6, built as (unit lower or identity) x (sparse upper) with shuffled rows so that partial pivoting must swap rows (also in later columns, with zeros on the diagonal), entries lifted to derivative content over 3 names with differing layouts, through dsolve::<f64|Dual|Dual2|Number> (Number mixing floats with a dual kind) and fdsolve with b of f64|Dual|Dual2. The returned x, read by name, must satisfy A x = b and the once and twice differentiated systems (normal equations for least squares) with residuals <= 1e-9 x cond x scale, and be unchanged under a row permutation of the system.",
+   text="200k random systems per quick run (5M thorough): square 1-8 and tall up to 14x6, built as (unit lower or identity) x (sparse upper) with shuffled rows so that partial pivoting must swap rows (also in later columns, with zeros on the diagonal), entries lifted to derivative content over 3 names with differing layouts, through dsolve::<f64|Dual|Dual2|Number> (Number mixing floats with a dual kind) and fdsolve with b of f64|Dual|Dual2. The returned x, read by name, must satisfy A x = b and the once and twice differentiated systems (normal equations for least squares) with residuals <= 1e-9 x cond x scale, and be unchanged under a row permutation of the system.",
    note="Only well-conditioned draws (cond_1 < 1e6, own estimate) are judged; singular systems are outside the property.",
    technique="property-based testing (proptest, shrinking) with a residual oracle on differentiated linear systems and a row-permutation metamorphic relation",
    design="5/C13"),
  "C14": dict(
-   text="400k random (order, knot sequence, evaluation points) cases per quick run (8M thorough), and for every point ALL basis indices and ALL derivative orders 0..k+1: equality with the Cox-de Boor recursion carried out independently on polynomial coefficient vectors per knot span (right limit, left limit at the right end point), non-negativity, exact zero outside the support, partition of unity, derivative sums zero, exact zero for m >= k. Points are drawn exactly on knots (incl. repeated interior knots up to multiplicity k-1), at both end points, at the doubles adjacent to knots, at midpoints and uniformly.",
+   text="800k random (order, knot sequence, evaluation points) cases per quick run (25M thorough), and for every point ALL basis indices and ALL derivative orders 0..k+1: equality with the Cox-de Boor recursion carried out independently on polynomial coefficient vectors per knot span (right limit, left limit at the right end point), non-negativity, exact zero outside the support, partition of unity, derivative sums zero, exact zero for m >= k. Points are drawn exactly on knots (incl. repeated interior knots up to multiplicity k-1), at both end points, at the doubles adjacent to knots, at midpoints and uniformly.",
    note="Knots lie on a quarter grid so that evaluation exactly at knots is representable; spans 0.25..4.",
    technique="property-based testing (proptest, shrinking) against an independent piecewise-polynomial reference",
    design="5/C14"),
  "C15": dict(
-   text="40k random solves per quick run (1M thorough): orders 2-6, Greville sites with end rows of derivative order 0-2 or the callers' natural / clamped layout for order 4, random or polynomial data, float / first-order / second-order data, optional least squares. Coefficients x the independent reference basis must reproduce every data row and end condition; polynomial data are reproduced with all derivatives everywhere; library evaluation == coefficients x reference basis; dual abscissae return s', s''; sensitivities to data equal the independently inverted collocation matrix (and the library's own unit-data spline) with zero Hessian; the spline-kind x abscissa-kind table returns matching kinds and refuses first/second-order mixes; unsolved evaluation and mismatched lengths are errors.",
+   text="120k random solves per quick run (4M thorough): orders 2-6, Greville sites with end rows of derivative order 0-2 or the callers' natural / clamped layout for order 4, random or polynomial data, float / first-order / second-order data, optional least squares. Coefficients x the independent reference basis must reproduce every data row and end condition; polynomial data are reproduced with all derivatives everywhere; library evaluation == coefficients x reference basis; dual abscissae (plain variables and numbers with their own first- and second-order content) return s', s'' by the chain rule; sensitivities to data equal the independently inverted collocation matrix (and the library's own unit-data spline) with zero Hessian; the spline-kind x abscissa-kind table returns matching kinds and refuses first/second-order mixes; unsolved evaluation and mismatched lengths are errors.",
    note="Site sets are admissible by construction; draws with cond >= 1e8 are skipped and counted (about 1%).",
    technique="property-based testing (proptest, shrinking) against an independent basis + linear-algebra reference and a polynomial-reproduction oracle",
    design="5/C15"),
  "C16": dict(
-   text="40k random objects per quick run (1.5M thorough) of every serialisable type, each through every path that exists for it (direct JSON, tagged from_json entry point via the hook, bincode): load(save(x)) must equal x under the type's own equality AND answer a per-type query set bit-identically; doubles are raw bit patterns / full random mantissas (17 significant digits), names include unicode and characters needing escaping; named calendars must be stored by name only and FX markets as quotes + currencies only. 24 per-type / per-state floors.",
+   text="40k random objects per quick run (3M thorough) of every serialisable type, each through every path that exists for it (direct JSON, tagged from_json entry point via the hook, bincode): load(save(x)) must equal x under the type's own equality AND answer a per-type query set bit-identically; doubles are raw bit patterns / full random mantissas (17 significant digits), names include unicode and characters needing escaping; named calendars must be stored by name only and FX markets as quotes + currencies only. 24 per-type / per-state floors.",
    note="NaN/inf excluded; FX markets saved in second-order state are compared by value and rate table only (lowering second order reproduces a first-order build only to the last bit).",
    technique="property-based testing (proptest, shrinking) with round-trip oracles over three serialisation paths",
    design="5/C16"),
  "C20": dict(
-   text="250k random cases per quick run (6M thorough) in three families under catch_unwind: (A) every result-returning constructor / operation with arbitrary arguments of the declared types, with Ok/Err predicted by explicit models (length rules, 3-letter rule, union-find for FX, name parser, own rank test classifying csolve's collocation matrix); (B) day / business-day / lag / month arithmetic and adjustment over the whole i8 range, month offsets landing in 1970-2200, roll days 1-31 on arbitrary calendars; (C) valid JSON documents of 14 kinds, direct and tagged, with 1-3 structural mutations (delete, duplicate key/element, replace, wrong string, resize, perturb): no panic, and every accepted object is re-saved and must satisfy the shape rules of numbers and splines; loaded FX markets must answer all rates. Known findings are matched on (entry point, input class, panic site) and excluded from the search so that it continues behind them. The thorough tier adds a coverage-guided libFuzzer campaign on the JSON entry points.",
-   note="One known finding is listed (csolve on a singular collocation matrix panics); five defects found by this check were repaired in /repo.",
+   text="300k random cases per quick run (20M thorough) in three families under catch_unwind: (A) every result-returning constructor / operation with arbitrary arguments of the declared types, with Ok/Err predicted by explicit models (length rules, 3-letter rule, union-find for FX, name parser, own rank test classifying csolve's collocation matrix); (B) day / business-day / lag / month arithmetic and adjustment over the whole i8 range, month offsets landing in 1970-2200, roll days 1-31 on arbitrary calendars; (C) valid JSON documents of 14 kinds, direct and tagged, with 1-3 structural mutations (delete, duplicate key/element, replace, wrong string, resize, perturb): no panic, and every accepted object is re-saved and must satisfy the shape rules of numbers and splines; loaded FX markets must answer all rates. Known findings are matched on (entry point, input class, panic site) and excluded from the search so that it continues behind them. The thorough tier adds a coverage-guided libFuzzer campaign on the JSON entry points.",
+   note="One known finding is listed (csolve on a singular collocation matrix panics); six defects found by this check (one of them by its libFuzzer target) were repaired in /repo.",
    technique="property-based testing (proptest, shrinking) + structural JSON mutation fuzzing with panic capture and contract models; libFuzzer in the thorough tier",
    design="5/C20"),
  "C05": dict(
-   text="Generated-input search against a count model: ~120k random (calendar, start date, operation, day count, flag) cases per quick run (2M thorough) covering add_bus_days, lag, bus_date_range and add_days, with day counts over the whole i8 range weighted to 0, +-1, +-2, +-127 and -128, business and non-business starts, plus an enumeration of all 256 day counts x both flags x three operations on sampled (built-in calendar, date) pairs. The oracle counts business days one at a time over the calendar's own predicates, applies the settlement roll in the direction of n, and asserts the inverse law and the error contract. Exploration only: it shows agreement on everything generated, not for every calendar.",
+   text="Generated-input search against a count model: ~300k random (calendar, start date, operation, day count, flag) cases per quick run (10M thorough) covering add_bus_days, lag, bus_date_range and add_days, with day counts over the whole i8 range weighted to 0, +-1, +-2, +-127 and -128, business and non-business starts, plus an enumeration of all 256 day counts x both flags x three operations on sampled (built-in calendar, date) pairs. The oracle counts business days one at a time over the calendar's own predicates, applies the settlement roll in the direction of n, and asserts the inverse law and the error contract. Exploration only: it shows agreement on everything generated, not for every calendar.",
    note="Trusts is_bus_day/is_settlement of the calendar (C06/C07). lag(non-business date, 0, settlement=true) is under-specified by the documentation; both readings are accepted.",
    technique="property-based testing (proptest, shrinking) + bounded exhaustive enumeration against a day-by-day count model",
    design="5/C05"),
  "C06": dict(
-   text="Generated-input search with full-range oracles: each of ~3.2k cases per quick run (64k thorough) is a combination spec, a valid name string, an invalid string or an equality pair, and every combination / name / pair is evaluated on EVERY date of 1970-2200 (84 371 dates): business day = business day in every member, settlement day = business day in every settlement calendar, named == explicit combination of its parts, and library `==` (all 8 implemented kind pairings, both operand orders) == the harness's own full-range behavioural comparison. Equality operands are constructed to be behaviourally equal but structurally different, or different on a single date (including the first/last day of the range and settlement-only differences), which is where an early-exit or settlement-blind comparison would go wrong.",
+   text="Generated-input search with full-range oracles: each of ~4k cases per quick run (200k thorough) is a combination spec, a valid name string, an invalid string or an equality pair, and every combination / name / pair is evaluated on EVERY date of 1970-2200 (84 371 dates): business day = business day in every member, settlement day = business day in every settlement calendar, named == explicit combination of its parts, and library `==` (all 8 implemented kind pairings, both operand orders) == the harness's own full-range behavioural comparison. Equality operands are constructed to be behaviourally equal but structurally different, or different on a single date (including the first/last day of the range and settlement-only differences), which is where an early-exit or settlement-blind comparison would go wrong.",
    note="For built-in members the built-in plain calendar itself is the 'part' (its content is C07's subject). Holiday sets of arbitrary members are at most ~60 dates.",
    technique="property-based testing (proptest) with metamorphic equality pairs and a date-exhaustive all/any reference model",
    design="5/C06"),
@@ -95,12 +95,12 @@ CHECKS = {
    technique="exhaustive enumeration against an independent rule-based reference model (data-table differential)",
    design="5/C07"),
  "C08": dict(
-   text="Generated-input search against own Gregorian arithmetic: ~300k random add_months cases per quick run (10M thorough) over all start days (weight on days 28-31, leap/century years), month offsets of both signs (small, whole years, exact January/December landings, uniform targets), every roll kind and day 1-31, all modifiers and flags, always landing in 1970-2200; the unadjusted date is computed as month index 12y+m with the day capped at the month length (third Wednesday for IMM) and then adjusted with the C04 reference walk. get_imm / get_eom / get_roll / is_leap_year for every (year, month) and is_imm / is_eom for every date of 1970-2200 are enumerated completely. Per-branch floors make sure every carry branch (total <= 0, = 12, >= 13) and day capping are hit.",
+   text="Generated-input search against own Gregorian arithmetic: ~400k random add_months cases per quick run (30M thorough) over all start days (weight on days 28-31, leap/century years), month offsets of both signs (small, whole years, exact January/December landings, uniform targets), every roll kind and day 1-31, all modifiers and flags, always landing in 1970-2200; the unadjusted date is computed as month index 12y+m with the day capped at the month length (third Wednesday for IMM) and then adjusted with the C04 reference walk. get_imm / get_eom / get_roll / is_leap_year for every (year, month) and is_imm / is_eom for every date of 1970-2200 are enumerated completely. Per-branch floors make sure every carry branch (total <= 0, = 12, >= 13) and day capping are hit.",
    note="Adjustment after the month arithmetic is judged by the C04 reference walk; chrono's y/m/d is cross-checked against the civil model for every date in the range.",
    technique="property-based testing (proptest, shrinking) + exhaustive side tables against an independent civil-calendar model",
    design="5/C08"),
  "C04": dict(
-   text="Generated-input search with an independent oracle: ~160k random (calendar, date, modifier, flag) cases per quick run (3M thorough) over plain, combined and named calendars with arbitrary week masks and holiday runs aimed at month/year ends and settlement-only closures, plus a sweep of every date x modifier x flag over the 14 built-in calendars and 6 typical combinations (30-year window quick, all of 1970-2200 thorough, where it is exhaustive). Each result is compared with a day-by-day reference walk; fixed-point and idempotence laws are asserted. Exploration cannot show absence for arbitrary user calendars, but the built-in sweep is complete.",
+   text="Generated-input search with an independent oracle: ~300k random (calendar, date, modifier, flag) cases per quick run (12M thorough) over plain, combined and named calendars with arbitrary week masks and holiday runs aimed at month/year ends and settlement-only closures, plus a sweep of every date x modifier x flag over the 14 built-in calendars and 6 typical combinations (30-year window quick, all of 1970-2200 thorough, where it is exhaustive). Each result is compared with a day-by-day reference walk; fixed-point and idempotence laws are asserted. Exploration cannot show absence for arbitrary user calendars, but the built-in sweep is complete.",
    note="Trusts the calendar object's own is_bus_day/is_settlement (decided by C06/C07); midnight timestamps only; holiday runs <= 12 days.",
    technique="property-based testing (proptest, shrinking) + exhaustive enumeration against a reference walk",
    design="5/C04"),
@@ -140,6 +140,11 @@ def main():
             "add_only": True,
         },
         "engines": [{
+            "name": "rlverif-fuzz",
+            "path": "/verif/fuzz",
+            "serves_properties": sorted(k for k in CHECKS.keys() if k != "C07"),
+            "kind_free_text": "cargo-fuzz / libFuzzer targets: `prop` (input bytes = random stream of the property's own proptest strategy via a patched pass-through RNG in /verif/vendor/proptest; same oracles, replay files and known-findings matcher) and `json_load` (raw JSON text into every loader, C20); thorough tier only",
+        }, {
             "name": "rlverif",
             "path": "/verif/harness",
             "serves_properties": sorted(CHECKS.keys()),
@@ -147,7 +152,7 @@ def main():
         }],
         "checks": checks,
         "not_applicable": na,
-        "notes": "Entry point ./check <ID> --tier quick|thorough; exit 0/1/2 (2 = inconclusive or infrastructure, never a verdict). VERIF_SEED selects the seed (default 1). known_findings.json lists recorded and fixed defects.",
+        "notes": "Entry point ./check <ID> --tier quick|thorough; exit 0/1/2 (2 = inconclusive or infrastructure, never a verdict). VERIF_SEED selects the seed (default 1). The thorough tier appends a coverage-guided libFuzzer stage (tools/fuzz_stage.sh; needs the nightly toolchain, otherwise it is skipped and recorded as such). known_findings.json lists 1 recorded and 11 repaired defects; seeded/ holds 40 confirmed breaking changes with the check that catches each (DESIGN.md section 12).",
     }
     json.dump(m, open(os.path.join(ROOT, "MANIFEST.json"), "w"), indent=1)
     print("checks:", len(checks), "not_applicable:", len(na))
